@@ -1,4 +1,7 @@
 import AL.Model.Proc
+import AL.Lemmas.ProcSanitize
+import AL.Lemmas.ProcInv
+import AL.Lemmas.ProcLive
 /-
   C20 — shellcheck/pyflakes integration loses nothing and bounds concurrency.
   Statements; proved theorems are added below by name.
@@ -77,5 +80,259 @@ def no_add_after_wait_statement : Prop :=
 def progress_statement : Prop :=
   ∀ (par n : Nat) (sched : List Act) (s : State), par ≥ 1 → exec (init par n) sched = some s → s.returned = false →
     ∃ a, (step s a).isSome
+
+
+/-! ## Proofs -/
+
+/-! ### concrete data used by the `example`s
+
+The scripts are ASCII, so code points = UTF-8 bytes; `"…".toList.map (·.toNat)` is used instead of
+`"…".toUTF8.toList.map (·.toNat)` because the kernel cannot unfold `String.toUTF8` (`decide` gets stuck on
+`String.toByteArray`); the `#guard`s check (by evaluation) that the two agree. -/
+
+def bytes (s : String) : List Nat := s.toList.map (·.toNat)
+
+/-- `echo ${{ github.sha }} && echo "${{ a }}" }} ${{ unclosed` -/
+def exScript : List Nat := bytes "echo ${{ github.sha }} && echo \"${{ a }}\" }} ${{ unclosed"
+def exPre : List Nat := bytes "echo "
+def exBody : List Nat := bytes " github.sha "
+def exRest : List Nat := bytes " && echo \"${{ a }}\" }} ${{ unclosed"
+/-- `echo _________________ && echo "________" }} ${{ unclosed` -/
+def exSanitized : List Nat := bytes "echo _________________ && echo \"________\" }} ${{ unclosed"
+
+#guard exScript = "echo ${{ github.sha }} && echo \"${{ a }}\" }} ${{ unclosed".toUTF8.toList.map (·.toNat)
+#guard exSanitized = "echo _________________ && echo \"________\" }} ${{ unclosed".toUTF8.toList.map (·.toNat)
+
+/-- par = 2, n = 3: a complete run of `LintFiles` -/
+def exSched : List Act :=
+  [.submit 0, .submit 1, .acquire 0, .submit 2, .acquire 1, .finish 0, .acquire 2, .callback 0,
+   .finish 1, .finish 2, .callback 2, .callback 1, .visitDone, .egWait, .procWait, .ret]
+
+/-- the final state of `exSched` -/
+def exFinal : State :=
+  { par := 2, sema := 2, wg := 0, pcs := [.done, .done, .done], visiting := false, egWaited := true,
+    procWaited := true, returned := true }
+
+deriving instance DecidableEq for AL.Proc.State
+
+example : exec (init 2 3) exSched = some exFinal := by decide
+/-- after seven actions: two tools running (= par), one callback running, no free permit, wg = 3 -/
+example : exec (init 2 3) (exSched.take 7) =
+    some { par := 2, sema := 0, wg := 3, pcs := [.released, .running, .running] } := by decide
+
+/-! ### (a) -/
+
+theorem sanitize_length : sanitize_length_statement := AL.Proc.sanitize_length
+
+example : sanitize exScript = exSanitized := by decide
+example : (sanitize exScript).length = 57 ∧ exScript.length = 57 := by decide
+
+/-! ### (b) -/
+
+theorem sanitize_pointwise : sanitize_pointwise_statement := fun src i h =>
+  AL.Proc.sanitizeAux_pointwise src.length src i h
+
+-- byte 4 (the blank before `${{`) is kept, byte 5 (`$`) becomes `_`, byte 43 (`}` of the stray `}}`) is kept
+example : (sanitize exScript)[4]? = some 32 ∧ exScript[4]? = some 32 ∧
+    (sanitize exScript)[5]? = some 95 ∧ exScript[5]? = some 36 ∧
+    (sanitize exScript)[43]? = some 125 ∧ exScript[43]? = some 125 := by decide
+
+/-! ### (c) -/
+
+theorem sanitize_first : sanitize_first_statement := by
+  intro pre body rest h1 h2
+  have hd : (pre ++ open3 ++ body ++ close2 ++ rest).drop pre.length
+      = open3 ++ body ++ close2 ++ rest := by
+    simp [List.append_assoc]
+  have h2' : indexOf close2 ((pre ++ open3 ++ body ++ close2 ++ rest).drop pre.length) 0
+      = some (3 + body.length) := by rw [hd]; exact h2
+  rw [AL.Proc.sanitize_hit _ _ _ h1 h2']
+  have ht : (pre ++ open3 ++ body ++ close2 ++ rest).take pre.length = pre := by
+    simp [List.append_assoc]
+  have hr : (pre ++ open3 ++ body ++ close2 ++ rest).drop (3 + body.length + pre.length + 2) = rest := by
+    have : 3 + body.length + pre.length + 2 = (pre ++ open3 ++ body ++ close2).length := by
+      simp [open3, close2]; omega
+    rw [this, List.drop_left]
+  rw [ht, hr]
+  have : 3 + body.length + 2 = 5 + body.length := by omega
+  rw [this]
+
+-- the hypotheses of (c) are satisfiable, and the instance is non-trivial: `rest` has a second
+-- placeholder, a stray `}}` and an unclosed `${{`
+example : exScript = exPre ++ open3 ++ exBody ++ close2 ++ exRest := by decide
+example : indexOf open3 (exPre ++ open3 ++ exBody ++ close2 ++ exRest) 0 = some exPre.length := by decide
+example : indexOf close2 (open3 ++ exBody ++ close2 ++ exRest) 0 = some (3 + exBody.length) := by decide
+example : sanitize exRest = bytes " && echo \"________\" }} ${{ unclosed" := by decide
+example : sanitize exScript = exPre ++ List.replicate (5 + exBody.length) 95 ++ sanitize exRest :=
+  sanitize_first exPre exBody exRest (by decide) (by decide)
+
+/-! ### (d) -/
+
+theorem sanitize_idempotent : sanitize_idempotent_statement := AL.Proc.sanitize_idem
+
+/-- (d), first half of the doc comment: without `${{`, or with a `${{` that is never closed, nothing
+changes. -/
+theorem sanitize_unchanged (src : List Nat) :
+    (indexOf open3 src 0 = none → sanitize src = src) ∧
+    (∀ s, indexOf open3 src 0 = some s → indexOf close2 (src.drop s) 0 = none → sanitize src = src) :=
+  ⟨AL.Proc.sanitize_noOpen src, fun s h1 h2 => AL.Proc.sanitize_noClose src s h1 h2⟩
+
+example : sanitize (sanitize exScript) = sanitize exScript := by decide
+-- the output still contains an (unclosed) `${{` and a `}}` *before* it: they do not pair up
+example : indexOf open3 (sanitize exScript) 0 = some 45 ∧ indexOf close2 (sanitize exScript) 0 = some 42 ∧
+    indexOf close2 ((sanitize exScript).drop 45) 0 = none := by decide
+-- nested `${{ ${{ a }} }}`: the first `}}` closes → `____________ }}`
+example : sanitize (bytes "${{ ${{ a }} }}") = bytes "____________ }}" := by decide
+-- `$${{ x }}{{ y }}` → `$________{{ y }}`: the kept `$` followed by `_` forms no new `${{`
+example : sanitize (bytes "$${{ x }}{{ y }}") = bytes "$________{{ y }}" := by decide
+example : sanitize (bytes "echo ${{ unclosed") = bytes "echo ${{ unclosed" := by decide
+
+/-! ### (e) -/
+
+theorem shell_precedence : shell_precedence_statement := by
+  refine ⟨fun _ _ _ _ => rfl, ?_, ?_, ?_, by decide⟩
+  · intro j w r hj; simp [effectiveShell, hj]
+  · intro w r hw; simp [effectiveShell, hw]
+  · intro r hr; simp [effectiveShell, hr]
+
+example : effectiveShell (some "pwsh") "sh" "bash" "cmd" = "pwsh" ∧
+    effectiveShell none "sh" "bash" "cmd" = "sh" ∧ effectiveShell none "" "python" "cmd" = "python" ∧
+    effectiveShell none "" "" "cmd" = "cmd" ∧ effectiveShell none "" "" "" = "bash" := by decide
+
+/-! ### (f) -/
+
+theorem no_silent_drop : no_silent_drop_statement := by
+  refine ⟨fun _ => rfl, fun _ _ => rfl, ?_, ?_, ?_, rfl, fun _ => rfl, ?_⟩
+  · intro json code hc
+    simp [shellcheckCallback, runResult, hc]
+  · intro json code out hj
+    by_cases hc : ¬code = 0 ∧ out = [] <;> simp [shellcheckCallback, runResult, hc, hj]
+  · intro json code out n hc hj
+    cases hc with
+    | inl h => simp [shellcheckCallback, runResult, h, hj]
+    | inr h => simp [shellcheckCallback, runResult, h, hj]
+  · intro code hc
+    simp [pyflakesCallback, runResult, hc]
+
+-- `json` here: "output starts with `[`" ↦ 1 diagnostic
+example :
+    let json : List Nat → Option Nat := fun out => if out.head? = some 91 then some 1 else none
+    shellcheckCallback json (.exited 1 (bytes "[{\"code\":2086}]")) = .diags 1 ∧
+    shellcheckCallback json (.exited 1 (bytes "shellcheck: bad option")) = .fatal ∧
+    shellcheckCallback json (.exited 2 []) = .fatal ∧
+    shellcheckCallback json (.signaled (bytes "[]")) = .fatal ∧
+    pyflakesCallback (.exited 1 (bytes "<stdin>:1:1: undefined name 'x'\n")) = .diags 1 ∧
+    pyflakesCallback (.exited 1 (bytes "<stdin>:1:1: unterminated")) = .fatal ∧
+    pyflakesCallback (.exited 1 []) = .fatal := by decide
+
+/-! ### (g) -/
+
+theorem inv_of_inv' {s : State} (h : AL.Proc.Inv' s) : Inv s :=
+  ⟨h.permits, h.wgCount, h.afterVisit, h.order1, h.order2, h.order3⟩
+
+theorem inv'_of_inv {s : State} (h : Inv s) : AL.Proc.Inv' s :=
+  ⟨h.permits, h.wgCount, h.afterVisit, h.order1, h.order2, h.order3⟩
+
+/-- `Inv` is inductive as stated (no strengthening needed) -/
+theorem inv_init (par n : Nat) : Inv (init par n) := inv_of_inv' (AL.Proc.init_inv par n)
+
+theorem inv_step (s s' : State) (a : Act) (hi : Inv s) (h : step s a = some s') : Inv s' :=
+  inv_of_inv' (AL.Proc.step_inv s s' a (inv'_of_inv hi) h)
+
+theorem inv_reachable : inv_reachable_statement := fun par n sched s h =>
+  inv_of_inv' (AL.Proc.reachable_inv par n sched s h)
+
+example : Inv exFinal := inv_reachable 2 3 exSched exFinal (by decide)
+
+/-! ### (h) -/
+
+theorem bounded : bounded_statement := by
+  intro par n sched s h
+  have hi := AL.Proc.reachable_inv par n sched s h
+  have hp := (AL.Proc.exec_par _ _ _ h).1
+  have := AL.Proc.inv_bounded s hi
+  simp [init] at hp
+  omega
+
+-- the bound is attained (two running with par = 2) and the third invocation cannot acquire
+example : (exec (init 2 3) (exSched.take 5)).map (fun s => (count s.pcs .running, s.sema)) = some (2, 0) ∧
+    exec (init 2 3) (exSched.take 5 ++ [.acquire 2]) = none := by decide
+
+/-! ### (i) -/
+
+theorem collected : collected_statement := fun par n sched s h hr =>
+  AL.Proc.inv_collected s (AL.Proc.reachable_inv par n sched s h) hr
+
+-- returning early is impossible: `procWait` is not enabled while a callback is outstanding
+example : exec (init 2 3) (exSched.take 11 ++ [.visitDone]) = none ∧
+    exec (init 2 1) [.submit 0, .acquire 0, .finish 0, .egWait] = none ∧
+    exec (init 2 1) [.visitDone, .egWait, .procWait, .ret] =
+      some { par := 2, sema := 2, wg := 0, pcs := [.idle], visiting := false, egWaited := true,
+             procWaited := true, returned := true } := by decide
+
+/-! ### (j) -/
+
+theorem no_add_after_wait : no_add_after_wait_statement := fun par n sched s i h hp =>
+  AL.Proc.inv_no_add s (AL.Proc.reachable_inv par n sched s h) hp i
+
+-- invocation 0 was never submitted, yet after `procWait` it cannot be any more
+example : exec (init 2 1) [.visitDone, .egWait, .procWait, .submit 0] = none := by decide
+
+/-! ### (k) -/
+
+theorem progress : progress_statement := by
+  intro par n sched s hpar h hr
+  have hi := AL.Proc.reachable_inv par n sched s h
+  have hp := (AL.Proc.exec_par _ _ _ h).1
+  simp [init] at hp
+  exact AL.Proc.inv_progress s hi (by omega) hr
+
+-- in the state after `exSched.take 5` (no free permit, invocation 2 waiting) `finish 0` is enabled
+example : (exec (init 2 3) (exSched.take 5)).bind (fun s => step s (.finish 0)) ≠ none := by decide
+
+/-- the hypothesis `par ≥ 1` of (k) is necessary: with a zero-capacity semaphore (`NumCPU = 0`), one
+submitted invocation deadlocks the protocol. -/
+theorem progress_needs_permit :
+    ¬ (∀ (par n : Nat) (sched : List Act) (s : State), exec (init par n) sched = some s → s.returned = false →
+      ∃ a, (step s a).isSome) := by
+  intro hall
+  obtain ⟨a, ha⟩ := hall 0 1 [.submit 0]
+    { par := 0, sema := 0, wg := 1, pcs := [.added] } (by decide) rfl
+  cases a with
+  | submit i => cases i <;> simp [step] at ha
+  | acquire i => simp [step] at ha
+  | finish i => cases i <;> simp [step] at ha
+  | callback i => cases i <;> simp [step] at ha
+  | visitDone => simp [step] at ha
+  | egWait => simp [step] at ha
+  | procWait => simp [step] at ha
+  | ret => simp [step] at ha
+
+/-! ### extras -/
+
+/-- (k⁺), stronger than (k): every reachable state (with ≥ 1 permit) can be extended to a state in which
+`LintFiles` has returned — the protocol has no deadlock and no unavoidable livelock. -/
+def can_return_statement : Prop :=
+  ∀ (par n : Nat) (sched : List Act) (s : State), par ≥ 1 → exec (init par n) sched = some s →
+    ∃ sched' s', exec (init par n) (sched ++ sched') = some s' ∧ s'.returned = true
+
+theorem can_return : can_return_statement := by
+  intro par n sched s hpar h
+  have hi := AL.Proc.reachable_inv par n sched s h
+  have hp := (AL.Proc.exec_par _ _ _ h).1
+  simp [init] at hp
+  obtain ⟨sched', s', hex, hret⟩ := AL.Proc.inv_can_return _ s (Nat.le_refl _) hi (by omega)
+  exact ⟨sched', s', by rw [AL.Proc.exec_append, h]; exact hex, hret⟩
+
+-- the prefix of length 5 of `exSched` is completed by its remaining 11 actions
+example : exec (init 2 3) (exSched.take 5 ++ exSched.drop 5) = some exFinal := by decide
+
+/-- the semaphore capacity and the number of invocations are constants of a run -/
+theorem shape_reachable (par n : Nat) (sched : List Act) (s : State)
+    (h : exec (init par n) sched = some s) : s.par = par ∧ s.pcs.length = n ∧ s.sema ≤ par := by
+  have hp := AL.Proc.exec_par _ _ _ h
+  have := AL.Proc.inv_sema_le s (AL.Proc.reachable_inv par n sched s h)
+  simp [init] at hp
+  omega
 
 end AL.C20
